@@ -7,7 +7,8 @@ specification fails on the monitor's own records — the tag's session is not th
 the message is neither on the POST exchange named by its tag nor on a stream whose recorded creator is that
 POST (`own = .no`: the recorded creator is another POST, or there cannot be one: the standalone stream, an
 unknown stream, or another POST exchange); a detached / server-initiated / JSON-mode message is on a request
-stream that is not a listen stream.  `routeCheck_complete` is the converse: no clause ⇒ the specification holds
+stream that is not a listen stream; a fan-out copy (`Prov.fanout`) is on a request stream in a session other than the
+issuing one, or on a request stream that is not the issuing request's own (or the caller did not pass its context).  `routeCheck_complete` is the converse: no clause ⇒ the specification holds
 up to what the monitor has evidence for (`own ≠ .no`: confirmed, or no evidence about the stream's creator).
 The records themselves (`posts`) only ever hold first evidence: `bindPost_first`.
 -/
@@ -25,6 +26,8 @@ def RouteSpec (m : MonS σ π) (pv : Prov σ) (sess : σ) (stream k : Option Nat
       ps = sess ∧ (if m.jsonMode then standaloneOrListen m sess stream k = true else own m sess stream k post ≠ .no)
   | .detached ps => ps = sess ∧ standaloneOrListen m sess stream k = true
   | .server => standaloneOrListen m sess stream k = true
+  | .fanout ps _ post hctx =>
+      standaloneOrListen m sess stream k = true ∨ (ps = sess ∧ hctx = true ∧ own m sess stream k post ≠ .no)
   | .other => False
 
 theorem routeCheck_complete (m : MonS σ π) (pv : Prov σ) (sess : σ) (stream k : Option Nat)
@@ -83,6 +86,18 @@ theorem routeCheck_complete (m : MonS σ π) (pv : Prov σ) (sess : σ) (stream 
     split at h
     · assumption
     · cases h
+  | fanout ps req post hctx =>
+    simp only at h ⊢
+    split at h
+    · left; assumption
+    · split at h
+      · cases h
+      · rename_i h2
+        split at h
+        · rename_i h3
+          simp only [Bool.and_eq_true, decide_eq_true_eq] at h3
+          exact Or.inr ⟨by simpa using h2, h3.1, h3.2⟩
+        · cases h
   | other => simp at h
 
 /-- a raised routing clause refutes the routing specification -/
@@ -111,6 +126,12 @@ theorem routeCheck_sound (m : MonS σ π) (pv : Prov σ) (sess : σ) (stream k :
   | server =>
     simp only at h hs
     simp [hs] at h
+  | fanout ps req post hctx =>
+    simp only at h hs
+    rcases hs with hs | ⟨h1, h2, h3⟩
+    · simp [hs] at h
+    · subst h1; subst h2
+      simp [h3] at h
   | other => exact hs
 
 /-- `own = .no` spelled out: not the POST exchange itself, and the recorded creator is another POST — or there is
